@@ -126,13 +126,6 @@ inductive SendErr where
   | notAvailable | tooLarge | conn (e : ConnErr)
 deriving Repr, DecidableEq
 
-/-- `handle_send_datagram_error`: the answer and the error handed to `set_conn_error_and_wake` (if any).
-    The `ConnectionError` arm wraps the transport's value in `Remote` whatever it is. -/
-def handleSendError : SendIn → SendErr × Option CE
-  | .notAvailable => (.notAvailable, none)
-  | .tooLarge => (.tooLarge, none)
-  | .conn e => (.conn (.remote e), some e)
-
 /-- `ErrorOrigin`: the first error stored in the shared state. -/
 inductive Origin where
   | quic (e : CE) | internal (code : Nat)
@@ -143,6 +136,42 @@ def convertOrigin : Origin → ConnErr
   | .internal c => .local_ c
   | .quic .timeout => .timeout
   | .quic e => .remote e
+
+/-- `set_conn_error` (`OnceLock::get_or_init`): the error in the cell after a handle has offered `o` - the first
+    error stays. -/
+def cellAfter (cell : Option Origin) (o : Origin) : Origin := cell.getD o
+
+/-- what the `ConnectionError` arm of `handle_send_datagram_error` answers (read from the tree:
+    `H3.Gen.DgSendArms.connArm`, tied to this model by `Lemmas/GenAgreeDgSend.lean`) -/
+inductive ConnArm where
+  /-- `self.handle_quic_stream_error(ConnectionErrorIncoming { connection_error })`, the function every other handle
+      uses: the error goes to `set_conn_error_and_wake`, the answer is `convert_to_connection_error` of what that
+      call returns (the error that IS in the cell) -/
+  | cellWinner
+  /-- (before the repair of D-05g / D-18b) `set_conn_error_and_wake(error)` with its result dropped, answer
+      `ConnectionError::Remote(error)` -/
+  | ownRemote
+deriving Repr, DecidableEq
+
+/-- `handle_send_datagram_error` with `cell` = the connection's error cell before the call: the answer and the error
+    handed to `set_conn_error_and_wake` (if any).  The `ConnectionError` arm goes through `handle_quic_stream_error`
+    like every other handle: it offers the transport's error to the cell and answers the cell's winner, converted
+    by the common conversion. -/
+def handleSendError (cell : Option Origin) : SendIn → SendErr × Option CE
+  | .notAvailable => (.notAvailable, none)
+  | .tooLarge => (.tooLarge, none)
+  | .conn e => (.conn (convertOrigin (cellAfter cell (.quic e))), some e)
+
+/-- the arm of the tree this model follows -/
+def connArm : ConnArm := .cellWinner
+
+/-- the same function for either shape of the arm (used by the agreement lemma only) -/
+def handleSendErrorBy (arm : ConnArm) (cell : Option Origin) : SendIn → SendErr × Option CE
+  | .notAvailable => (.notAvailable, none)
+  | .tooLarge => (.tooLarge, none)
+  | .conn e => match arm with
+    | .cellWinner => (.conn (convertOrigin (cellAfter cell (.quic e))), some e)
+    | .ownRemote => (.conn (.remote e), some e)
 
 /-- `close_if_needed`: the code h3 closes the connection with when the driver meets the stored error. -/
 def closeCode : Origin → Option Nat
